@@ -109,7 +109,19 @@ HANDLE_FUNCS = ["<varlink::VarlinkService as varlink::ConnectionHandler>::handle
                 "derive(Deserialize) for varlink::Request", "std::io::BufReader (real, small capacity)"]
 
 
-HANDLE_LOOPS = [("=memcmp.0", 12), (r"memchr::memrchr", 8), (r"tagser::key_eq", 12), (r"tagser::pack", 10)] + VALUE_CUTS
+# drop glue of error values (Box<dyn Error> chains: CBMC tries every implementor) is cut at depth 1 as well;
+# the real code never drops an error inside handle(), but a changed handle() may
+ERROR_CUTS = [("rec:drop_glue::<(error::Error|std::io::Error|serde_json::Error|serde_json::error::ErrorImpl|"
+               "serde_json::error::ErrorCode|core::io::error|std::boxed::Box<dyn std::error::Error)", 1)]
+# handle() wraps its `&mut dyn BufRead` argument in a BufReader, which is itself a `dyn BufRead` candidate: when
+# CBMC loses track of the vtable pointer it expands BufReader-in-BufReader recursively (DESIGN P6). The harness
+# reader is never a BufReader, so one level is exact; the unwinding assertion would fail otherwise.
+BUFREAD_CUTS = [(r"rec:BufReader<&mut dyn std::io::BufRead> as std::io::(Read|BufRead)>::", 1),
+                (r"rec:impl std::io::(Read|BufRead) for &mut &?m?u?t? ?dyn std::io::BufRead", 1),
+                (r"rec:Buffer::fill_buf::<&mut &mut dyn std::io::BufRead>", 1),
+                (r"rec:default_read_buf_exact::<std::io::BufReader<&mut dyn", 1)]
+HANDLE_LOOPS = ([("=memcmp.0", 12), (r"memchr::memrchr", 8), (r"tagser::key_eq", 12), (r"tagser::pack", 10)]
+                + VALUE_CUTS + ERROR_CUTS + BUFREAD_CUTS)
 
 
 def handle_h(name, k, what, tiers, timeout=(1500, 3600)):
@@ -134,6 +146,9 @@ CHECKS["C01"] = {
         handle_h("c01_k2_ed", 2, "[empty method, dispatched]", ("thorough",)),
         handle_h("c01_k2_nn", 2, "[no dot, no dot]", ("thorough",)),
         handle_h("c01_k3_ddd", 3, "[dispatched x3]", ("quick", "thorough")),
+        handle_h("c01_k2_err_first", 2, "[dispatched, dispatched], the first implementation returns Err (constant)", ("quick", "thorough")),
+        handle_h("c01_k3_err_second", 3, "[dispatched x3], first Ok, second returns Err (constants)", ("thorough",)),
+        handle_h("c01_k2_upgrade_first", 2, "[dispatched, dispatched], the first implementation upgrades (constant)", ("thorough",)),
         handle_h("c01_k3_dnd", 3, "[dispatched, no dot, dispatched]", ("thorough",)),
     ],
     "assumptions": [
@@ -192,6 +207,9 @@ CHECKS["C17"] = {
               "object with any subset of the members a, b, each an empty object; strict MapAccess protocol",
               timeout=(900, 3600), extra_stubs=["std::collections::HashSet::insert -> ghost counter recording the inserted "
                                                "element (hashbrown's insert is not the subject)"]),
+        c17_h("c17_stringset_serialize_empty", "<varlink::StringHashSet as Serialize>::serialize (hand-written)",
+              "the empty set (no solver-chosen input: one concrete obligation)", timeout=(900, 3600),
+              extra_stubs=["std::hash::RandomState::new -> fixed keys"]),
         c17_h("c17_stringset_serialize", "<varlink::StringHashSet as Serialize>::serialize (hand-written)",
               "set with 0 or 1 element", tiers=("thorough",), timeout=(3600, 7200), extra_stubs=HASH_STUBS),
     ],
@@ -340,8 +358,8 @@ CHECKS["C02"] = {
           symbolic="per message: number of replies the implementation writes (0..2)",
           bounds="stream 'm' NUL 'm' NUL 't' fed whole vs. in two chunks cut at byte %d (%s), tail re-fed; unwind 12" % (c, d),
           stubs=STUB_HANDLE, loop_rules=HANDLE_LOOPS, witness="search")
-        for c, d, t in [(0, "empty first chunk", ("thorough",)), (1, "inside the first message", ("quick", "thorough")),
-                        (2, "on the message boundary", ("quick", "thorough")), (3, "inside the second message", ("quick", "thorough")),
+        for c, d, t in [(0, "empty first chunk", ("thorough",)), (1, "between the first message and its NUL", ("quick", "thorough")),
+                        (2, "on the message boundary", ("quick", "thorough")), (3, "between the second message and its NUL", ("quick", "thorough")),
                         (4, "after the last complete message", ("thorough",)), (5, "whole stream first", ("thorough",))]
     ] + [
         # the upgrade hand-over clause is decided by the C01 harnesses' P:c02.* assertions
